@@ -175,6 +175,9 @@ static void ref_cmp(const Ctx *x, Ref *r) {            /* strcmp_s strcasecmp_s 
     QO q; qo(x, &q); const Fn *f = x->fn;
     int ci = strstr(f->name, "case") || strstr(f->name, "icmp");
     if (!q.sterm) { r->verdict = V_ANY; return; }
+    /* the folding compare works on Unicode text: an operand holding values above U+10FFFF (the dirty fill of an unterminated
+     * operand) may be rejected, as wcsfc_s documents, or compared */
+    if (ci && (f->flags & F_WIDE)) { for (long k = 0; k < q.dn; k++) if (q.d[k] > 0x10FFFF) { r->verdict = V_ANY; return; } for (long k = 0; k < q.sn; k++) if (q.s[k] > 0x10FFFF) { r->verdict = V_ANY; return; } }
     long i = 0;
     for (;; i++) {
         if (!q.dterm && i >= q.dn) { r_out(r, 0); r->sign_only = 1; return; }   /* first dmax elements equal */
